@@ -199,3 +199,7 @@ def run(tier: str) -> int:
     rep.assumptions = ['roots: operands are dyadic; the enclosure grid 2^-g is finer than a quarter of every gap of the target',
                        'pow: integer exponents |n| <= 6 only (real exponents belong to C03)']
     return rep.finish()
+
+
+def replay(path: str) -> int:
+    return core.replay_saved('C02', 'ArithTrace', path, rerun=globals().get('_rerun'))
